@@ -55,6 +55,11 @@ pub struct Plan {
     pub ops: Vec<Vec<Op>>,
     pub sim: SimCfg,
     pub schedule: Option<Vec<u8>>,
+    /// file-delivered operations of one thread reuse the same scratch paths: the files are
+    /// rewritten (by the harness, outside the seam) right before each compilation, as a build
+    /// script regenerating its inputs would
+    #[serde(default)]
+    pub reuse_paths: bool,
 }
 
 pub fn canonical(set: &ModuleSet) -> Arrangement {
@@ -244,7 +249,8 @@ impl Scenario for C11Threads {
             buggify: vec![],
             capture_stdout: false,
         };
-        serde_json::to_value(&Plan { seed, inputs, ops, sim: simcfg, schedule: None }).unwrap()
+        let reuse_paths = root.fork("layout").chance(1, 3);
+        serde_json::to_value(&Plan { seed, inputs, ops, sim: simcfg, schedule: None, reuse_paths }).unwrap()
     }
 
     /// One pristine grandchild per (input, backend) key: canonical arrangement, literals,
@@ -289,30 +295,45 @@ impl Scenario for C11Threads {
         let mut bodies: Vec<sim::Body<Vec<CompileOut>>> = vec![];
         let mut n_ops = 0;
         for (t, h) in p.ops.iter().enumerate() {
-            let mut prepared: Vec<(BackendSel, Vec<Src>, BuilderPath)> = vec![];
+            // (backend, sources, builder path, files to (re)write right before the compilation)
+            let mut prepared: Vec<(BackendSel, Vec<Src>, BuilderPath, Vec<(String, String)>)> = vec![];
             for (k, op) in h.iter().enumerate() {
                 let texts = input_texts(&p.inputs[op.input], &op.arr);
+                let mut late_writes = vec![];
                 let srcs: Vec<Src> = if op.files {
-                    let dir = format!("{root}/t{t}/op{k}");
+                    let dir = if p.reuse_paths { format!("{root}/t{t}/scratch") } else { format!("{root}/t{t}/op{k}") };
                     std::fs::create_dir_all(&dir).unwrap();
                     texts
                         .iter()
                         .enumerate()
                         .map(|(i, txt)| {
                             let path = format!("{dir}/s{i}.asn");
-                            std::fs::write(&path, txt).unwrap();
+                            if p.reuse_paths {
+                                late_writes.push((path.clone(), txt.clone()));
+                            } else {
+                                std::fs::write(&path, txt).unwrap();
+                            }
                             Src::Path(path)
                         })
                         .collect()
                 } else {
                     texts.into_iter().map(Src::Literal).collect()
                 };
-                prepared.push((op.backend.clone(), srcs, op.bp.clone()));
+                prepared.push((op.backend.clone(), srcs, op.bp.clone(), late_writes));
                 n_ops += 1;
             }
             bodies.push(Box::new(move || {
                 let mut results = vec![];
-                for (k, (be, srcs, bp)) in prepared.into_iter().enumerate() {
+                for (k, (be, srcs, bp, late_writes)) in prepared.into_iter().enumerate() {
+                    if !late_writes.is_empty() {
+                        // harness I/O: outside the seam (not a simulated call, no yield point)
+                        let tid = crate::sched::current_tid();
+                        shim::register_thread(-1);
+                        for (path, txt) in &late_writes {
+                            std::fs::write(path, txt).unwrap();
+                        }
+                        shim::register_thread(tid);
+                    }
                     sim::op_begin(&format!("t{t}.op{k}"));
                     let r = sut::compile_to_string(&be, &srcs, &bp);
                     sim::op_end(&format!("t{t}.op{k}"));
@@ -393,6 +414,10 @@ impl Scenario for C11Threads {
         out.count(&format!("threads.{}", p.ops.len()), 1);
         out.count(&format!("strategy.{}", match p.sim.strategy { Strategy::Random { percent } => format!("random{percent}"), Strategy::Pct { d, .. } => format!("pct{d}"), Strategy::RunToCompletion => "run-to-completion".into() }), 1);
         out.count("context_switches", rep.sched.switches);
+        out.count("forced_handoffs", rep.sched.forced_handoffs);
+        if p.reuse_paths {
+            out.count("probe.run_reusing_source_paths_with_new_content", 1);
+        }
         out.count("probe.switch_inside_a_compilation", rep.sched.switches_inside);
         for (l, n) in &rep.sched.labels {
             out.count(&format!("yield.{l}"), *n);
